@@ -12,7 +12,7 @@ import pickle
 from harness import common, replay, tlc
 
 BLOCK = 250          # default; _work re-derives it from the real cache bound (maxsize // 2) so that K = 2 whatever the bound is
-NKEYS = 5
+NKEYS = 6
 
 
 def _key_args(k, variant):
@@ -27,6 +27,8 @@ def _key_args(k, variant):
         return ('div.c%d > p', ns_b if variant else ns_a, None, 0)
     if k == 4:
         return ('div.c%d > p', None, ({':--y': 'b', ':--x': 'p.q'} if variant else {':--x': 'p.q', ':--y': 'b'}), 0)
+    if k == 6:     # same alias body as key 4, different nested dependency
+        return ('div.c%d > p', None, ({':--y': 'i', ':--x': 'p.q'} if variant else {':--x': 'p.q', ':--y': 'i'}), 0)
     return ('div.c%d > p', None, None, 1)
 
 
@@ -108,6 +110,26 @@ RICH = [
     ':root:empty:scope', ':checked, :default, :indeterminate, :disabled, :enabled', ':in-range:out-of-range', ':placeholder-shown:read-only:read-write',
     ':required:optional:link:any-link:defined', ':hover, :focus-within', ':current(p)', ':host(p)', ':--x > :--y', '& > p', 'p:is()',
 ]
+
+
+def _alias_part(chk):
+    """custom aliases with nested dependencies: what compile returns must select what the alias-free spelling selects, whatever was
+    compiled before with maps that share alias bodies (no purge in between)"""
+    sv, bs4 = common.import_repo()
+    soup = bs4.BeautifulSoup('<div><p class="q">x<b>1</b><i>2</i></p><p><b>3</b></p><i><b>4</b></i><span><i>5</i></span></div>', 'html.parser')
+    pos = {id(t): n for n, t in enumerate(soup.find_all(True))}
+    maps = [({':--x': ':--y > b', ':--y': 'p'}, 'p > b'), ({':--x': ':--y > b', ':--y': 'i'}, 'i > b'), ({':--x': ':--y > b', ':--y': 'p.q'}, 'p.q > b'),
+            ({':--x': ':--y > b', ':--y': ':--z', ':--z': 'span, i'}, ':is(span, i) > b'), ({':--x': ':--y > b', ':--y': ':--z', ':--z': 'p'}, 'p > b')]
+    sv.purge()
+    for rnd in range(2):
+        for cu, plain in (maps if rnd == 0 else maps[::-1]):
+            for pat, exp in ((':--x', plain), ('div :--x', 'div :is(%s)' % plain), (':not(:--x)', ':not(%s)' % plain)):
+                got = [pos[id(t)] for t in sv.select(pat, soup, custom=cu)]
+                want = [pos[id(t)] for t in sv.select(exp, soup)]
+                chk.count(1)
+                if got != want:
+                    chk.violation('alias|%s|%r' % (pat, cu), 'compile(%r, custom=%r) selects %r, the alias-free spelling %r selects %r (stale alias?)' % (
+                        pat, cu, got, exp, want), {'cfg': 'alias-transparency', 'group': 'stale alias body', 'selector': pat})
 
 
 def _rich_part(chk):
@@ -195,7 +217,7 @@ def _work(H, chunk):
             elif act == 'pass_extra':
                 if returned:
                     ob = returned[-1][2]
-                    for kw in ({'flags': 1}, {'namespaces': {'a': 'b'}}, {'custom': {':--z': 'a'}}):
+                    for kw in ({'flags': 1}, {'namespaces': {'a': 'b'}}, {'custom': {':--z': 'a'}}, {'namespaces': {}}, {'custom': {}}):
                         try:
                             sv.compile(ob, **kw)
                             errs.append((tag, 'compile(compiled, %s) was accepted' % list(kw)[0]))
@@ -245,4 +267,5 @@ def main(tier):
             case.setdefault('cfg', 'lru-sim')
             chk.violation('lru-sim|' + key, what, case)
     _rich_part(chk)
+    _alias_part(chk)
     return chk.finish()
